@@ -63,11 +63,15 @@ def EnvSt.intro (e : EnvSt) : Option Work → EnvSt
 /-- Items of one delivered batch: indices consecutive from `next`, works well-formed one after
 the other.  (The graph does not change the clauses checked here between the items of one
 batch except through freshness, which `e` threads.) -/
+def idxMatches : Option Nat → Nat → Bool
+  | some i, next => i == next
+  | none, _ => true
+
 def itemsOk (σ : Static) (q : WQ) : EnvSt → Nat → List IResult → Option (EnvSt × Nat)
   | e, next, [] => some (e, next)
   | e, next, it :: r =>
-    let idxOk := match it.value.idx with | some i => i == next | none => true
-    if idxOk && workOptOk σ e q none it.work then itemsOk σ q (e.intro it.work) (next + 1) r
+    if idxMatches it.value.idx next && workOptOk σ e q none it.work then
+      itemsOk σ q (e.intro it.work) (next + 1) r
     else none
 
 /-- Is this graph event a legal move of the environment in state `(e, q)`?  Returns the
